@@ -548,7 +548,14 @@ func Handshake(a Args) error {
 		go func(i int) {
 			defer wg.Done()
 			defer func() { <-sem }()
-			out.Emit(runHandshake(i+1, &cases[i], (int64(i)+a.Seed)%3 == 0))
+			// -n 1 / -n 2: the isolated re-run of one scenario keeps the settings variant it had in the full run
+			cfgd := (int64(i)+a.Seed)%3 == 0
+			if a.N == 1 {
+				cfgd = true
+			} else if a.N == 2 {
+				cfgd = false
+			}
+			out.Emit(runHandshake(i+1, &cases[i], cfgd))
 		}(i)
 	}
 	wg.Wait()
